@@ -91,15 +91,58 @@ def fOps1 : List HOp :=
 (block 1 applied, block 2 saved, its state not), is restarted, and runs again -/
 def fOps2 : List HOp := [.place 4 (fD 3) oDat]
 
+/-- decidable form of `EvOK` -/
+def evOKb (C : Cfg) (ch : PChain) : Event → Bool
+  | .hdr w _ =>
+    match ch w.header.height with
+    | some blk => decide (toSH C.key w = blk.sh)
+    | none => false
+  | .dat sd _ =>
+    match sd.data.metadata with
+    | some m =>
+      match ch m.height with
+      | some blk => decide (sd.data = blk.data)
+      | none => false
+    | none => false
+
+theorem evOK_of_check {C : Cfg} {ch : PChain} {e : Event} (h : evOKb C ch e = true) : EvOK C ch e := by
+  cases e with
+  | hdr w da =>
+    simp only [evOKb] at h
+    split at h
+    · rename_i blk hb; exact ⟨blk, hb, by simpa using h⟩
+    · cases h
+  | dat sd da =>
+    simp only [evOKb] at h
+    split at h
+    · rename_i m hm
+      split at h
+      · rename_i blk hb; exact ⟨m, blk, hm, hb, by simpa using h⟩
+      · cases h
+    · cases h
+
 /-- decidable form of `OpOK` -/
 def opOKb (C : Cfg) (ch : PChain) : HOp → Bool
   | .place _ b o => blobOKb C ch (b, o)
+  | .p2p es => es.all (evOKb C ch)
   | _ => true
 
 theorem opOK_of_check {C : Cfg} {ch : PChain} {op : HOp} (h : opOKb C ch op = true) : OpOK C ch op := by
   cases op with
   | place da b o => exact blobOK_of_check h
+  | p2p es => exact fun e he => evOK_of_check (List.all_eq_true.mp h e he)
   | _ => trivial
+
+/-- the events the P2P store loops hand over for the header / data of block `k` -/
+def fPH (k : Nat) : List Event :=
+  ((fch k).map fun b => [Event.hdr { header := b.sh.hdr, signature := [1], signer := { address := b.sh.signer.addr, pubKey := fPk } } 0]).getD []
+def fPD (k : Nat) : List Event :=
+  ((fch k).map fun b => [Event.dat { data := b.data, signature := [1], signer := { address := fAddr, pubKey := fPk } } 0]).getD []
+
+/-- **applied first, observed later**: blocks 1 and 2 arrive over P2P and are applied; only then their blobs are
+included in the DA layer (data 2 and header 1 at DA 1, header 2 at DA 2) and scanned -/
+def fOps3 : List HOp :=
+  [.p2p (fPH 1 ++ fPD 2 ++ fPH 2), .place 1 (fD 2) oDat, .place 1 (fH 1) oHdr, .place 2 (fH 2) oHdr]
 
 def holdsF (s : Store) : Bool := holdsBlock fch s 1 && holdsBlock fch s 2 && holdsBlock fch s 3
 
@@ -110,18 +153,29 @@ theorem fChainFacts :
   decide +kernel
 
 /-- what the node looks like after a history: chain height, DA cursor, DA height of the persisted state, number of
-durable writes of the last operation, does it hold the whole chain (1/0), alive (1/0) -/
+durable writes of the last operation, does it hold the whole chain (1/0), alive (1/0), DA-included height -/
 def summary (s : HSt) : List Nat :=
   [s.nd.full.store.height, s.nd.cursor, (s.nd.full.store.state.map (·.daHeight)).getD 99, s.ws.length,
-   if holdsF s.nd.full.store then 1 else 0, if s.nd.full.alive then 1 else 0]
+   if holdsF s.nd.full.store then 1 else 0, if s.nd.full.alive then 1 else 0, s.daInc]
 
 set_option maxRecDepth 100000 in
 theorem fRunFacts :
-    summary (hrun fC fOps1) = [2, 4, 1, 6, 0, 1] ∧
-    summary (hrun fC (fOps1 ++ fOps2 ++ [.crash 4])) = [1, 1, 1, 0, 0, 1] ∧
-    summary (hrun fC (fOps1 ++ fOps2 ++ [.crash 4, .run])) = [3, 5, 1, 6, 1, 1] ∧
+    summary (hrun fC fOps1) = [2, 4, 1, 12, 0, 1, 2] ∧
+    summary (hrun fC (fOps1 ++ fOps2 ++ [.crash 4])) = [1, 1, 1, 0, 0, 1, 0] ∧
+    summary (hrun fC (fOps1 ++ fOps2 ++ [.crash 4, .run])) = [3, 5, 1, 15, 1, 1, 3] ∧
     (hrun fC (fOps1 ++ fOps2 ++ [.crash 4])).v.top = 5 ∧
     (hrun fC (fOps1 ++ fOps2 ++ [.crash 4])).v.scripts.all (fun p => p.2.isEmpty) = true := by
+  decide +kernel
+
+set_option maxRecDepth 100000 in
+theorem fIncFacts :
+    fOps3.all (opOKb fC fch) = true ∧
+    summary (hrun fC fOps3) = [2, 1, 1, 6, 0, 1, 0] ∧
+    summary (hrun fC (fOps3 ++ [.run])) = [2, 3, 1, 6, 0, 1, 2] ∧
+    summary (hrun fC (fOps3 ++ [.run, .crash 2])) = [2, 1, 1, 0, 0, 1, 0] ∧
+    summary (hrun fC (fOps3 ++ [.run, .crash 2, .run])) = [2, 3, 1, 6, 0, 1, 2] ∧
+    (hrun fC (fOps3 ++ [.run, .crash 2])).v.top = 3 ∧
+    (hrun fC (fOps3 ++ [.run, .crash 2])).v.scripts.all (fun p => p.2.isEmpty) = true := by
   decide +kernel
 
 /-- no fetch script is pending at any DA height -/
